@@ -68,6 +68,7 @@ def run_case(case):
             except BaseException as ex:  # noqa
                 res.validation_mismatch.append(dict(obs="<exception>", concrete=repr(ex)))
             finally:
+                cc.restore_patches()
                 core._CTX = None
         d = res.to_dict()
     except BaseException as ex:  # noqa
@@ -192,6 +193,7 @@ def replay_file(path):
     except core.ConcStop:
         pass
     finally:
+        cc.restore_patches()
         core._CTX = None
     if cc.conc_assume_failed:
         return False, "precondition not met in floating point: " + ";".join(cc.conc_assume_failed)
@@ -250,6 +252,7 @@ def main(argv=None):
     harness_errors, inconclusive, violations, known_hits = [], [], [], []
     replay_dir = os.path.join(ROOT, "replays", pid)
     n_replayed = 0
+    to_replay = []
     for r in results:
         cs = r["case"]
         opts = cs.get("opts", {})
@@ -281,25 +284,48 @@ def main(argv=None):
             path = os.path.join(replay_dir, fname)
             json.dump(dict(property=pid, case=cs, label=cx["label"], model=cx["model"], info=cx.get("info"),
                            notes=cx.get("notes")), open(path, "w"), indent=1, default=str)
-            env = dict(os.environ)
-            if opts.get("replay_jit", False):
-                env.pop("NUMBA_DISABLE_JIT", None)
-                env["NUMBA_DISABLE_JIT"] = "0"
+            to_replay.append((path, r["name"], cx["label"], bool(opts.get("replay_jit", False))))
+    # replay the solver's counterexamples on the real code (bounded number, in parallel)
+    MAXREPLAY = int(os.environ.get("VERIF_MAX_REPLAYS", "24"))
+    seen_keys = set()
+    chosen = []
+    for t in to_replay:  # one per (case,label) first
+        k = (t[1], t[2])
+        if k not in seen_keys:
+            seen_keys.add(k)
+            chosen.append(t)
+    chosen = chosen[:MAXREPLAY]
+    n_unreplayed = len(to_replay) - len(chosen)
+
+    def _replay(t):
+        path, cname, lab, jit = t
+        env = dict(os.environ)
+        env["NUMBA_DISABLE_JIT"] = "0" if jit else "1"
+        try:
             p = subprocess.run([sys.executable, "-m", "symx.runner", pid, "--replay", path], cwd=ROOT, env=env,
                                capture_output=True, text=True, timeout=3600)
-            n_replayed += 1
             out = p.stdout.strip().splitlines()
-            last = out[-1] if out else ""
-            if last.startswith("REPRODUCED"):
-                k = match_known(known, r["name"], cx["label"])
-                if k:
-                    known_hits.append((k, r["name"], cx["label"]))
-                else:
-                    violations.append((path, r["name"], cx["label"], last[:300]))
-            elif last.startswith("NOT-REPRODUCED"):
-                inconclusive.append(f"{r['name']}:{cx['label']} solver model did not reproduce on the real code: {last[:200]}")
+            return t, (out[-1] if out else ""), (p.stderr or p.stdout)[-400:]
+        except subprocess.TimeoutExpired:
+            return t, "", "replay timed out"
+
+    from concurrent.futures import ThreadPoolExecutor
+    with ThreadPoolExecutor(max_workers=8) as ex:
+        replayed = list(ex.map(_replay, chosen))
+    for (path, cname, lab, jit), last, err in replayed:
+        n_replayed += 1
+        if last.startswith("REPRODUCED"):
+            k = match_known(known, cname, lab)
+            if k:
+                known_hits.append((k, cname, lab))
             else:
-                harness_errors.append(f"{r['name']}:{cx['label']} replay crashed: {(p.stderr or p.stdout)[-400:]}")
+                violations.append((path, cname, lab, last[:300]))
+        elif last.startswith("NOT-REPRODUCED"):
+            inconclusive.append(f"{cname}:{lab} solver model did not reproduce on the real code: {last[:200]}")
+        else:
+            harness_errors.append(f"{cname}:{lab} replay crashed: {err}")
+    if n_unreplayed and not violations:
+        inconclusive.append(f"{n_unreplayed} further counterexamples were not replayed (limit {MAXREPLAY})")
     # ---- evidence
     meta = getattr(mod, "META", {})
     tot = lambda k: sum(r[k] for r in results)
